@@ -1,7 +1,7 @@
 (* C17 - proofs.  Part A: the (graph, blockers) representation of an abstract complex (faces = sub-lists of strictly
    increasing vertex lists; nothing below depends on the order, only on the sub-list relation).
    Part B: the transcription of C17_Model.v refines the abstract operations. *)
-From Coq Require Import ZArith List Bool Lia Arith.
+From Coq Require Import ZArith List Bool Lia Arith Sorted.
 Require Import C17_Model.
 Import ListNotations.
 Open Scope Z_scope.
@@ -424,6 +424,345 @@ Proof.
     exfalso. apply (H s Hs). split; apply smem_In; auto.
 Qed.
 
+(* ================================================================== B5: remove_star(edge) when no blocker through the edge has >= 3 further vertices *)
+Definition same_edge (a b u w : Z) : bool := (Z.min u w =? Z.min a b) && (Z.max u w =? Z.max a b).
+Lemma same_edge_iff a b u w : same_edge a b u w = true <-> (u = a /\ w = b) \/ (u = b /\ w = a).
+Proof. unfold same_edge. rewrite andb_true_iff, !Z.eqb_eq. lia. Qed.
+
+Lemma has_edge_remove_edge c a b u w :
+  has_edge (remove_edge c a b) u w = has_edge c u w && negb (same_edge a b u w).
+Proof.
+  unfold has_edge, remove_edge. simpl edg. induction (edg c) as [|e l IH]; simpl; auto.
+  destruct (edge_is a b e) eqn:Eab; simpl.
+  - rewrite IH. destruct (edge_is u w e) eqn:Euw; simpl; auto.
+    assert (same_edge a b u w = true).
+    { unfold edge_is in *. unfold same_edge. apply andb_true_iff in Eab, Euw. rewrite !Z.eqb_eq in *.
+      apply andb_true_iff. rewrite !Z.eqb_eq. lia. }
+    rewrite H. rewrite andb_false_r. auto.
+  - rewrite IH. destruct (edge_is u w e) eqn:Euw; simpl; auto.
+    assert (same_edge a b u w = false).
+    { destruct (same_edge a b u w) eqn:E; auto. exfalso.
+      unfold edge_is in *. unfold same_edge in E. apply andb_true_iff in E, Euw. rewrite !Z.eqb_eq in *.
+      assert (edge_is a b e = true); [|unfold edge_is in *; congruence].
+      unfold edge_is. apply andb_true_iff. rewrite !Z.eqb_eq. lia. }
+    rewrite H. auto.
+Qed.
+
+Lemma forallb_and_neg {A} (f g : A -> bool) l :
+  forallb (fun w => f w && negb (g w)) l = forallb f l && negb (existsb g l).
+Proof. induction l as [|x l IH]; simpl; auto. rewrite IH. destruct (f x), (g x), (forallb f l), (existsb g l); auto. Qed.
+
+Lemma existsb_same_edge a b x r : a <> b ->
+  existsb (same_edge a b x) r = ((x =? a) && smem b r) || ((x =? b) && smem a r).
+Proof.
+  intros Hab. apply eq_true_iff_eq. rewrite existsb_exists, orb_true_iff, !andb_true_iff, !Z.eqb_eq, !smem_In. split.
+  - intros [w [Hw Hs]]. apply same_edge_iff in Hs. destruct Hs as [[-> ->]|[-> ->]]; auto.
+  - intros [[-> H]|[-> H]]; [exists b | exists a]; split; auto; apply same_edge_iff; auto.
+Qed.
+
+Lemma forallb_ext' {A} (f g : A -> bool) l : (forall x, f x = g x) -> forallb f l = forallb g l.
+Proof. intros H. induction l as [|x l IH]; simpl; auto. rewrite H, IH. auto. Qed.
+
+Lemma all_pairs_ext (f g : Z -> Z -> bool) t : (forall u w, f u w = g u w) -> all_pairs f t = all_pairs g t.
+Proof.
+  intros H. induction t as [|x r IH]; simpl; auto. rewrite IH. f_equal. apply forallb_ext'. intros w. apply H.
+Qed.
+
+Lemma all_pairs_remove_edge c a b t : a <> b ->
+  all_pairs (has_edge (remove_edge c a b)) t = all_pairs (has_edge c) t && negb (smem a t && smem b t).
+Proof.
+  intros Hab. induction t as [|x r IH]; auto.
+  change (all_pairs (has_edge (remove_edge c a b)) (x :: r))
+    with (forallb (has_edge (remove_edge c a b) x) r && all_pairs (has_edge (remove_edge c a b)) r).
+  change (all_pairs (has_edge c) (x :: r)) with (forallb (has_edge c x) r && all_pairs (has_edge c) r).
+  rewrite IH.
+  rewrite (forallb_ext' _ (fun w => has_edge c x w && negb (same_edge a b x w)) r (fun w => has_edge_remove_edge c a b x w)).
+  rewrite forallb_and_neg, existsb_same_edge; auto.
+  assert (Hc : forall v, smem v (x :: r) = (v =? x) || smem v r) by reflexivity.
+  rewrite !Hc. rewrite (Z.eqb_sym a x), (Z.eqb_sym b x).
+  destruct (Z.eqb_spec x a) as [Ea|Na]; destruct (Z.eqb_spec x b) as [Eb|Nb]; try (exfalso; congruence);
+    destruct (forallb (has_edge c _) r), (all_pairs (has_edge c) r), (smem a r), (smem b r); auto.
+Qed.
+
+Lemma fold_left_ext_in {A B} (f g : A -> B -> A) l : forall c,
+  (forall x c, In x l -> f c x = g c x) -> fold_left f l c = fold_left g l c.
+Proof.
+  induction l as [|x l IH]; intros c H; simpl; auto. rewrite H; [|left; auto]. apply IH. intros y c' Hy. apply H. right; auto.
+Qed.
+
+(* no blocker containing s has at least thr more in dimension: the branch that adds a sub-blocker is never taken *)
+Definition no_big_blocker (thr : Z) (c : cplx) (s : simplex) : Prop :=
+  forall b, In b (blk c) -> ssub s b = true -> (dim b - dim s >=? thr) = false.
+
+Lemma update_blockers_no_big thr c v0 s' : no_big_blocker thr c (v0 :: s') ->
+  update_blockers_after_remove_star thr c (v0 :: s')
+  = fold_left delete_blocker (filter (fun b => ssub (v0 :: s') b) (blockers_at c v0)) c.
+Proof.
+  intros H. unfold update_blockers_after_remove_star. apply fold_left_ext_in.
+  intros b c' Hb. apply filter_In in Hb. destruct Hb as [Hb Hs]. unfold blockers_at in Hb. apply filter_In in Hb.
+  destruct Hb as [Hb _]. rewrite (H b Hb Hs). auto.
+Qed.
+
+Lemma blocks_after_delete c L s t :
+  (forall b, In b L -> ssub s b = true) -> ssub s t = false ->
+  blocks (fold_left delete_blocker L c) t = blocks c t.
+Proof.
+  intros HL Hs. destruct (fold_delete_blocker L c) as [_ [_ [_ [H4 H5]]]].
+  apply eq_true_iff_eq. rewrite !blocks_spec. split.
+  - intros [b [Hb Hr]]. exists b. split; auto.
+  - intros [b [Hb [Hne Hb2]]]. destruct (H5 b Hb) as [Hb'|Hb'].
+    + exists b; auto.
+    + exfalso. rewrite (ssub_trans _ _ _ (HL b Hb') Hb2) in Hs. discriminate.
+Qed.
+
+Theorem remove_star_edge_spec thr (c : cplx) (a b : Z) (t : simplex) : a <> b ->
+  no_big_blocker thr c [Z.min a b; Z.max a b] ->
+  contains (remove_star_edge thr c a b) t = contains c t && negb (ssub [Z.min a b; Z.max a b] t).
+Proof.
+  intros Hab Hnb. unfold remove_star_edge. rewrite update_blockers_no_big; auto.
+  set (s := [Z.min a b; Z.max a b]) in *.
+  set (L := filter (fun b0 => ssub s b0) (blockers_at c (Z.min a b))).
+  assert (HL : forall b0, In b0 L -> ssub s b0 = true) by (intros b0 Hb0; apply filter_In in Hb0; tauto).
+  destruct (fold_delete_blocker L c) as [H1 [H2 [H3 _]]].
+  set (c1 := fold_left delete_blocker L c) in *.
+  assert (Hsm : ssub s t = smem a t && smem b t).
+  { unfold s, ssub. simpl forallb. rewrite andb_true_r.
+    destruct (Z.le_gt_cases a b).
+    - rewrite Z.min_l, Z.max_r by lia. auto.
+    - rewrite Z.min_r, Z.max_l by lia. apply andb_comm. }
+  destruct t as [|x [|y r]].
+  - reflexivity.
+  - assert (Hf : ssub s [x] = false).
+    { rewrite Hsm. unfold smem. simpl. rewrite !orb_false_r.
+      destruct (Z.eqb_spec a x), (Z.eqb_spec b x); auto. congruence. }
+    rewrite Hf, andb_true_r. simpl. unfold contains_vertex. simpl slots. simpl act. rewrite H1, H2. auto.
+  - rewrite !contains_two.
+    assert (Hce : contains_edges (remove_edge c1 a b) (x :: y :: r)
+                  = contains_edges c (x :: y :: r) && negb (ssub s (x :: y :: r))).
+    { unfold contains_edges. rewrite all_pairs_remove_edge; auto. rewrite <- Hsm.
+      assert (Hcv : forallb (contains_vertex (remove_edge c1 a b)) (x :: y :: r) = forallb (contains_vertex c) (x :: y :: r)).
+      { apply forallb_ext'. intros v. unfold contains_vertex. simpl slots. simpl act. rewrite H1, H2. auto. }
+      rewrite Hcv. rewrite andb_assoc. f_equal. f_equal. apply all_pairs_ext. intros u w. unfold has_edge. rewrite H3. auto. }
+    rewrite Hce.
+    destruct (ssub s (x :: y :: r)) eqn:Es; [rewrite !andb_false_r; auto|]. rewrite !andb_true_r. f_equal. f_equal.
+    assert (Hb : blocks (remove_edge c1 a b) (x :: y :: r) = blocks c1 (x :: y :: r)) by reflexivity.
+    rewrite Hb. unfold c1. apply blocks_after_delete with (s := s); auto.
+Qed.
+
+(* ================================================================== B6: remove_star(vertex) when no blocker through the vertex has >= 3 further vertices *)
+Definition ninc (v : Z) (e : Z * Z) : bool := negb ((fst e =? v) || (snd e =? v)).
+
+Lemma filter_filter_absorb {A} (p q : A -> bool) l : (forall e, p e = true -> q e = true) ->
+  filter p (filter q l) = filter p l.
+Proof.
+  intros H. induction l as [|e l IH]; simpl; auto. destruct (q e) eqn:Eq; simpl.
+  - rewrite IH. auto.
+  - destruct (p e) eqn:Ep; auto. rewrite (H e Ep) in Eq. discriminate.
+Qed.
+
+Lemma fold_remove_edges v ws : forall c,
+  let c2 := fold_left (fun c w => remove_edge c v w) ws c in
+  slots c2 = slots c /\ act c2 = act c /\ blk c2 = blk c /\ filter (ninc v) (edg c2) = filter (ninc v) (edg c).
+Proof.
+  induction ws as [|w ws IH]; intros c; simpl; auto.
+  destruct (IH (remove_edge c v w)) as [H1 [H2 [H3 H4]]]. simpl in *. repeat split; auto.
+  rewrite H4. apply filter_filter_absorb. intros e He. unfold ninc in He. unfold edge_is.
+  apply negb_true_iff in He. apply orb_false_iff in He. destruct He as [He1 He2].
+  apply Z.eqb_neq in He1, He2. apply negb_true_iff. apply andb_false_iff.
+  destruct (Z.eqb_spec (fst e) (Z.min v w)); destruct (Z.eqb_spec (snd e) (Z.max v w)); auto. exfalso. lia.
+Qed.
+
+Lemma has_edge_filter_ninc c v u w l : edg c = l ->
+  existsb (edge_is u w) (filter (ninc v) l) = existsb (edge_is u w) l && negb ((u =? v) || (w =? v)).
+Proof.
+  intros _. induction l as [|e l IH]; simpl; auto.
+  destruct (ninc v e) eqn:En; simpl; rewrite IH; destruct (edge_is u w e) eqn:Eu; simpl; auto.
+  - unfold ninc in En. unfold edge_is in Eu. apply andb_true_iff in Eu. rewrite !Z.eqb_eq in Eu.
+    apply negb_true_iff, orb_false_iff in En. rewrite !Z.eqb_neq in En.
+    destruct (Z.eqb_spec u v); destruct (Z.eqb_spec w v); simpl; auto; exfalso; lia.
+  - unfold ninc in En. unfold edge_is in Eu. apply andb_true_iff in Eu. rewrite !Z.eqb_eq in Eu.
+    apply negb_false_iff, orb_true_iff in En. rewrite !Z.eqb_eq in En.
+    destruct (Z.eqb_spec u v); destruct (Z.eqb_spec w v); simpl; try rewrite andb_false_r; auto. exfalso. lia.
+Qed.
+
+Lemma all_pairs_ext_in (f g : Z -> Z -> bool) t : (forall u w, In u t -> In w t -> f u w = g u w) ->
+  all_pairs f t = all_pairs g t.
+Proof.
+  induction t as [|x r IH]; intros H; simpl; auto. f_equal.
+  - clear IH. assert (Hr : forall w, In w r -> f x w = g x w) by (intros w Hw; apply H; [left|right]; auto).
+    clear H. induction r as [|w r IHr]; simpl; auto. rewrite Hr; [|left; auto]. f_equal. apply IHr. intros; apply Hr; right; auto.
+  - apply IH. intros u w Hu Hw. apply H; right; auto.
+Qed.
+
+Lemma smem_sremove x v l : smem x (sremove v l) = smem x l && negb (x =? v).
+Proof.
+  unfold sremove. induction l as [|y l IH]; simpl; auto.
+  destruct (Z.eqb_spec y v) as [->|N]; simpl.
+  - rewrite IH. destruct (Z.eqb_spec x v) as [->|N']; simpl; [rewrite !andb_false_r; auto|]. auto.
+  - rewrite IH. destruct (Z.eqb_spec x y) as [->|N']; simpl; auto.
+    destruct (Z.eqb_spec y v); [congruence|]. auto.
+Qed.
+
+Theorem remove_star_vertex_spec thr (c : cplx) (v : Z) (t : simplex) :
+  no_big_blocker thr c [v] ->
+  contains (remove_star_vertex thr c v) t = contains c t && negb (smem v t).
+Proof.
+  intros Hnb. unfold remove_star_vertex. rewrite update_blockers_no_big; auto.
+  set (L := filter (fun b0 => ssub [v] b0) (blockers_at c v)).
+  assert (HL : forall b0, In b0 L -> ssub [v] b0 = true) by (intros b0 Hb0; apply filter_In in Hb0; tauto).
+  destruct (fold_delete_blocker L c) as [H1 [H2 [H3 _]]].
+  set (c1 := fold_left delete_blocker L c) in *.
+  destruct (fold_remove_edges v (nbrs c1 v) c1) as [G1 [G2 [G3 G4]]].
+  set (c2 := fold_left (fun c0 w => remove_edge c0 v w) (nbrs c1 v) c1) in *.
+  assert (Hcv : forall u, contains_vertex (remove_vertex c2 v) u = contains_vertex c u && negb (u =? v)).
+  { intros u. unfold contains_vertex. simpl slots. simpl act. rewrite G1, G2, H1, H2, smem_sremove.
+    rewrite andb_assoc. auto. }
+  assert (Hhe : forall u w, has_edge (remove_vertex c2 v) u w = has_edge c u w && negb ((u =? v) || (w =? v))).
+  { intros u w. unfold has_edge. simpl edg. fold (ninc v). change (fun e => negb ((fst e =? v) || (snd e =? v))) with (ninc v).
+    rewrite G4, H3. apply has_edge_filter_ninc with (c := c). auto. }
+  assert (Hsv : ssub [v] t = smem v t) by (unfold ssub; simpl; apply andb_true_r).
+  destruct t as [|x [|y r]].
+  - reflexivity.
+  - simpl contains. rewrite Hcv. f_equal. unfold smem. simpl. rewrite orb_false_r, Z.eqb_sym. auto.
+  - rewrite !contains_two. destruct (smem v (x :: y :: r)) eqn:Es.
+    + rewrite andb_false_r. apply andb_false_iff. left. unfold contains_edges. apply andb_false_iff. left.
+      apply smem_In in Es. clear -Es Hcv. induction (x :: y :: r) as [|u l IH]; [destruct Es|].
+      simpl. destruct Es as [->|Es].
+      * rewrite Hcv, Z.eqb_refl. rewrite andb_false_r. auto.
+      * rewrite (IH Es). apply andb_false_r.
+    + rewrite andb_true_r.
+      assert (Hne : forall u, In u (x :: y :: r) -> (u =? v) = false).
+      { intros u Hu. destruct (Z.eqb_spec u v) as [->|N]; auto. apply smem_In in Hu. congruence. }
+      f_equal.
+      * unfold contains_edges. f_equal.
+        -- clear -Hcv Hne. induction (x :: y :: r) as [|u l IH]; auto. simpl.
+           rewrite Hcv, (Hne u (or_introl eq_refl)). simpl. rewrite andb_true_r. f_equal. apply IH. intros; apply Hne; right; auto.
+        -- apply all_pairs_ext_in. intros u w Hu Hw. rewrite Hhe, (Hne u Hu), (Hne w Hw). simpl. apply andb_true_r.
+      * f_equal.
+        assert (Hb : blocks (remove_vertex c2 v) (x :: y :: r) = blocks c1 (x :: y :: r)).
+        { unfold blocks, blockers_at. simpl blk. rewrite G3. auto. }
+        rewrite Hb. unfold c1. apply blocks_after_delete with (s := [v]); auto.
+Qed.
+
+(* ================================================================== C: edge contraction on the abstract complex = image under the vertex map b |-> a.
+   Here simplices are taken as sets (lists up to incl both ways), so that no order is involved. *)
+Lemma sremove_In x v s : In x (sremove v s) <-> In x s /\ x <> v.
+Proof. unfold sremove. rewrite filter_In, negb_true_iff, Z.eqb_neq. tauto. Qed.
+
+Section Contraction.
+  Variable K : list Z -> Prop.
+  Variables a b : Z.
+  Definition set_closed (K : list Z -> Prop) : Prop :=
+    (forall u, K u -> u <> []) /\ forall s t, K t -> incl s t -> s <> [] -> K s.
+  Definition vm (v : Z) : Z := if v =? b then a else v.
+  Definition same_set (s t : list Z) : Prop := incl s t /\ incl t s.
+  Definition image (K : list Z -> Prop) (t : list Z) : Prop := exists u, K u /\ same_set t (map vm u).
+
+  Theorem contract_image_closed : set_closed K -> set_closed (image K).
+  Proof.
+    intros [Hne Hc]. split.
+    - intros t [u [Hu [H1 H2]]] ->. specialize (Hne u Hu). destruct u as [|x u]; [congruence|].
+      specialize (H2 (vm x)). simpl in H2. destruct H2. left; auto.
+    - intros s t [u [Hu [H1 H2]]] Hst Hs.
+      set (u' := filter (fun x => smem (vm x) s) u).
+      assert (Hsub : incl u' u) by (intros x Hx; apply filter_In in Hx; tauto).
+      assert (Hi1 : incl s (map vm u')).
+      { intros y Hy. specialize (H1 y (Hst y Hy)). apply in_map_iff in H1. destruct H1 as [x [<- Hx]].
+        apply in_map_iff. exists x. split; auto. apply filter_In. split; auto. apply smem_In; auto. }
+      assert (Hi2 : incl (map vm u') s).
+      { intros y Hy. apply in_map_iff in Hy. destruct Hy as [x [<- Hx]]. apply filter_In in Hx. apply smem_In; tauto. }
+      exists u'. split; [|split; auto]. apply (Hc u' u Hu Hsub).
+      intros E. destruct s as [|y s]; [congruence|]. specialize (Hi1 y (or_introl eq_refl)). rewrite E in Hi1. destruct Hi1.
+  Qed.
+
+  (* deleting the blockers through ab before contracting (what contract_edge does when the link condition fails) frees
+     simplices that contain a and b and whose face without b is present: the image is the same *)
+  Definition freed (t : list Z) : Prop := K t \/ (In a t /\ In b t /\ K (sremove b t)).
+  Theorem contract_image_after_freeing : a <> b -> forall t, image freed t <-> image K t.
+  Proof.
+    intros Hab t. split.
+    - intros [u [[Hu|[Ha [Hb Hu]]] [H1 H2]]]; [exists u; split; [|split]; auto|].
+      exists (sremove b u). split; auto. split.
+      + intros y Hy. specialize (H1 y Hy). apply in_map_iff in H1. destruct H1 as [x [<- Hx]].
+        destruct (Z.eq_dec x b) as [->|N].
+        * apply in_map_iff. exists a. split; [unfold vm; rewrite Z.eqb_refl; destruct (Z.eqb_spec a b); congruence|].
+          apply sremove_In; auto.
+        * apply in_map_iff. exists x. split; auto. apply sremove_In; auto.
+      + intros y Hy. apply H2. apply in_map_iff in Hy. destruct Hy as [x [<- Hx]]. apply sremove_In in Hx.
+        apply in_map_iff. exists x. tauto.
+    - intros [u [Hu H]]. exists u. split; auto. left; auto.
+  Qed.
+End Contraction.
+
+(* the executable specification spec_contract (C17_Model.v) lists exactly the images *)
+Lemma sinsert_In x v s : In x (sinsert v s) <-> x = v \/ In x s.
+Proof.
+  induction s as [|y s IH]; simpl; [intuition|].
+  destruct (Z.ltb_spec v y); simpl; [intuition|].
+  destruct (Z.eqb_spec v y) as [->|N]; simpl; [intuition|]. rewrite IH. intuition.
+Qed.
+Lemma vmap_same_set a b t : same_set (vmap a b t) (map (vm a b) t).
+Proof.
+  unfold vmap. destruct (smem b t) eqn:E.
+  - apply smem_In in E. split; intros y Hy.
+    + apply sinsert_In in Hy. destruct Hy as [->|Hy].
+      * apply in_map_iff. exists b. split; auto. unfold vm. rewrite Z.eqb_refl. auto.
+      * apply sremove_In in Hy. destruct Hy as [Hy N]. apply in_map_iff. exists y. split; [|exact Hy].
+        unfold vm. destruct (Z.eqb_spec y b) as [Eyb|Nyb]; [exfalso; exact (N Eyb) | reflexivity].
+    + apply in_map_iff in Hy. destruct Hy as [x [<- Hx]]. apply sinsert_In. unfold vm.
+      destruct (Z.eqb_spec x b) as [Exb|Nxb]; [left; reflexivity|]. right. apply sremove_In. split; assumption.
+  - assert (Hn : ~ In b t) by (intros H; apply smem_In in H; congruence).
+    assert (Hm : map (vm a b) t = t).
+    { clear E. induction t as [|x t IH]; simpl; auto. rewrite IH; [|intros H; apply Hn; right; auto].
+      unfold vm. destruct (Z.eqb_spec x b) as [->|N]; auto. exfalso. apply Hn. left; auto. }
+    rewrite Hm. split; apply incl_refl.
+Qed.
+Lemma dedup_In x l : In x (dedup l) <-> In x l.
+Proof.
+  induction l as [|y l IH]; simpl; [tauto|]. destruct (lmem y l) eqn:E; simpl; rewrite IH.
+  - apply lmem_In in E. split; auto. intros [<-|H]; auto.
+  - tauto.
+Qed.
+Theorem spec_contract_is_image k a b t :
+  In t (snd (spec_contract k a b)) -> image a b (fun u => In u (snd k)) t.
+Proof.
+  unfold spec_contract. simpl. rewrite dedup_In, in_map_iff. intros [u [<- Hu]]. exists u. split; auto. apply vmap_same_set.
+Qed.
+Theorem spec_contract_covers_image k a b u :
+  In u (snd k) -> exists t, In t (snd (spec_contract k a b)) /\ same_set t (map (vm a b) u).
+Proof.
+  intros Hu. exists (vmap a b u). split; [|apply vmap_same_set].
+  unfold spec_contract. simpl. apply dedup_In. apply in_map_iff. exists u; auto.
+Qed.
+
+(* ================================================================== D: on strictly increasing vertex lists (what the operations keep) the two face
+   relations coincide: sub (part A) = inclusion of the vertex sets (ssub, part B) *)
+Lemma sub_incl s t : sub s t -> incl s t.
+Proof.
+  induction 1 as [|x l1 l2 H IH|x l1 l2 H IH]; intros y Hy; auto.
+  - right. apply IH; auto.
+  - destruct Hy as [<-|Hy]; [left; auto | right; apply IH; auto].
+Qed.
+Theorem sorted_ssub_sub : forall t s, StronglySorted Z.lt s -> StronglySorted Z.lt t ->
+  (ssub s t = true <-> sub s t).
+Proof.
+  intros t s Hs Ht. rewrite ssub_incl. split; [|apply sub_incl].
+  revert s Hs. induction t as [|y t IH]; intros s Hs Hi.
+  - destruct s as [|x s]; [constructor|]. destruct (Hi x (or_introl eq_refl)).
+  - apply StronglySorted_inv in Ht. destruct Ht as [Ht Hy]. rewrite Forall_forall in Hy.
+    destruct s as [|x s]; [apply sub_nil_l|].
+    apply StronglySorted_inv in Hs. destruct Hs as [Hs Hx]. rewrite Forall_forall in Hx.
+    destruct (Z.eq_dec x y) as [->|N].
+    + apply sub_take. apply IH; auto. intros z Hz. destruct (Hi z (or_intror Hz)) as [E|H]; auto.
+      specialize (Hx z Hz). lia.
+    + apply sub_skip. apply IH; auto; [constructor; auto; apply Forall_forall; auto|].
+      assert (Hxy : y < x).
+      { destruct (Hi x (or_introl eq_refl)) as [E|H]; [congruence|]. apply Hy; auto. }
+      intros z [<-|Hz].
+      * destruct (Hi x (or_introl eq_refl)) as [E|H]; [congruence|auto].
+      * destruct (Hi z (or_intror Hz)) as [E|H]; auto. specialize (Hx z Hz). lia.
+Qed.
+
 (* ================================================================== witnesses *)
 (* boundary of the tetrahedron 0123 built through the transcribed operations *)
 Definition complete4 : cplx :=
@@ -476,6 +815,10 @@ Proof.
 Qed.
 
 (* non-vacuity of the hypotheses used above *)
+Example no_big_blocker_instance : no_big_blocker 3 hollow_triangle [0] /\ blk hollow_triangle = [[0; 1; 2]].
+Proof.
+  split; [|vm_compute; auto]. intros b Hb _. vm_compute in Hb. destruct Hb as [<-|[]]. vm_compute. auto.
+Qed.
 Example hollow_tetrahedron_contains :
   contains hollow_tetrahedron [0; 1; 2] = true /\ contains hollow_tetrahedron [0; 1; 2; 3] = false /\
   link_condition hollow_tetrahedron 0 1 = false /\ link_condition complete4 0 1 = true.
